@@ -272,7 +272,7 @@ func c09Colouring(N int) {
 	rt.Reach("end")
 }
 
-func H_c09_colouring_q() { c09Colouring(4) }
+func H_c09_colouring_q() { c09Colouring(5) }
 
 // c09IsProper: IsProperColouring on arbitrary colour vectors (incl. negative colours and wrong lengths).
 func c09IsProper(N int) {
@@ -301,7 +301,7 @@ func c09IsProper(N int) {
 
 func H_c09_isproper_q()  { c09IsProper(3) }
 func H_c09_isproper_t()  { c09IsProper(4) }
-func H_c09_colouring_t() { c09Colouring(5) }
+func H_c09_colouring_t() { c09Colouring(6) }
 
 func c09Greedy(N int) {
 	n := rt.Choice("n", N+1)
@@ -474,8 +474,8 @@ func c09EdgeCol(N int) {
 	rt.Reach("end")
 }
 
-func H_c09_edgecol_q() { c09EdgeCol(4) }
-func H_c09_edgecol_t() { c09EdgeCol(5) }
+func H_c09_edgecol_q() { c09EdgeCol(5) }
+func H_c09_edgecol_t() { c09EdgeCol(6) }
 
 func c09Poly(N int) {
 	n := rt.Choice("n", N+1)
@@ -527,8 +527,8 @@ func c09Poly(N int) {
 	rt.Reach("end")
 }
 
-func H_c09_poly_q() { c09Poly(4) }
-func H_c09_poly_t() { c09Poly(5) }
+func H_c09_poly_q() { c09Poly(5) }
+func H_c09_poly_t() { c09Poly(6) }
 
 func c09Degeneracy(N int) {
 	n := rt.Choice("n", N+1)
@@ -602,5 +602,139 @@ func c09Degeneracy(N int) {
 	rt.Reach("end")
 }
 
-func H_c09_degeneracy_q() { c09Degeneracy(4) }
+func H_c09_degeneracy_q() { c09Degeneracy(5) }
 func H_c09_degeneracy_t() { c09Degeneracy(6) }
+
+// c09CliqueWithTrees: EVERY labelled graph on n vertices that is a clique K_k (on every
+// k-subset of the labels) with trees hanging off it (every rooted forest on the other
+// vertices): many small maximal cliques around one large one, which is found early or late
+// depending on the labelling.  One path per clique position; the forests are looped over
+// inside the path.  CliqueNumber == k; with full also AllMaximalCliques == the clique plus
+// the tree edges, each once.
+func c09CliqueWithTrees(n, k int, full bool, cores [][]int) {
+	var core []int
+	if cores != nil {
+		core = cores[rt.Choice("core", len(cores))]
+	} else {
+		lo := 0
+		for i := 0; i < k; i++ {
+			v := lo + rt.Choice("core", n-(k-i)+1-lo)
+			core = append(core, v)
+			lo = v + 1
+		}
+	}
+	inCore := make([]bool, n)
+	for _, v := range core {
+		inCore[v] = true
+	}
+	var rest []int
+	idxOf := make([]int, n)
+	for v := 0; v < n; v++ {
+		if !inCore[v] {
+			idxOf[v] = len(rest)
+			rest = append(rest, v)
+		}
+	}
+	r := len(rest)
+	par := make([]int, r) // parent of rest[i]: a vertex other than itself
+	for i := range par {
+		if rest[i] == 0 {
+			par[i] = 1
+		}
+	}
+	// the last vertex's parent is a choice (more paths, same family); the others are looped over
+	top := rt.Choice("top", n-1)
+	if top >= rest[r-1] {
+		top++
+	}
+	par[r-1] = top
+	r1 := r - 1
+	pos := func(a, b int) int {
+		if a > b {
+			a, b = b, a
+		}
+		return b*(b-1)/2 + a
+	}
+	edges := make([]byte, n*(n-1)/2)
+	deg := make([]int, n)
+	count := 0
+	for {
+		// acyclic: every chain of parents reaches the core
+		ok := true
+		for i := 0; i < r && ok; i++ {
+			v := rest[i]
+			for steps := 0; !inCore[v]; steps++ {
+				if steps > r {
+					ok = false
+					break
+				}
+				v = par[idxOf[v]]
+			}
+		}
+		if ok {
+			count++
+			for i := range edges {
+				edges[i] = 0
+			}
+			for i := range deg {
+				deg[i] = 0
+			}
+			for x, a := range core {
+				for _, b := range core[x+1:] {
+					edges[pos(a, b)] = 1
+					deg[a]++
+					deg[b]++
+				}
+			}
+			for i := 0; i < r; i++ {
+				edges[pos(rest[i], par[i])] = 1
+				deg[rest[i]]++
+				deg[par[i]]++
+			}
+			g := &DenseGraph{NumberOfVertices: n, NumberOfEdges: k*(k-1)/2 + r, DegreeSequence: deg, Edges: edges}
+			if CliqueNumber(g) != k {
+				rt.Fail("CliqueNumber wrong on a clique with trees attached")
+				return
+			}
+			if full {
+				ch := make(chan []int, 2*n+2)
+				AllMaximalCliques(g, ch)
+				mc := 0
+				for range ch {
+					mc++
+				}
+				if mc != 1+r {
+					rt.Fail("AllMaximalCliques: wrong number of maximal cliques on a clique with trees attached")
+					return
+				}
+			}
+		}
+		// next parent vector (each entry ranges over the n-1 other vertices)
+		i := 0
+		for i < r1 {
+			par[i]++
+			if par[i] == rest[i] {
+				par[i]++
+			}
+			if par[i] < n {
+				break
+			}
+			par[i] = 0
+			if rest[i] == 0 {
+				par[i] = 1
+			}
+			i++
+		}
+		if i == r1 {
+			break
+		}
+	}
+	rt.Check(count >= 0, "harness")
+	rt.Reach("end")
+}
+
+// quick: the triangle on the lowest, a middle and the highest labels (3 of the 56 positions)
+func H_c09_cliquetrees_q() {
+	c09CliqueWithTrees(8, 3, false, [][]int{{0, 1, 2}, {2, 3, 4}, {5, 6, 7}})
+}
+func H_c09_cliquetrees_t() { c09CliqueWithTrees(8, 3+rt.Choice("k", 2), true, nil) }
